@@ -18,7 +18,8 @@ txt += ("%d changes were written by independent sub-agents in seven rounds, each
         "code paths). Each was confirmed here in a scratch worktree of /repo HEAD\n"
         "(`tools/seedcheck.sh`: the suite passes with the change, the demonstration fails with it and passes without it)\n"
         "and is kept under `/verif/seeded/<id>/` (`patch.diff`, `demo.py`, `notes.md`, `meta.json` with what was run).\n"
-        "One patch (C03-memoised-eclosure-cycles) was rebased by hand onto the tree after fix 7844e2c. To run a check\n"
+        "Patches that later fix commits had made inapplicable were rebased by hand onto the final tree (`meta.json` says so\n"
+        "and the sub-agent's original is kept as `patch.before-rebase.diff`): every `patch.diff` applies to /repo HEAD. To run a check\n"
         "against one: `git -C /repo apply seeded/<id>/patch.diff; ./check <PID>; git -C /repo checkout -- .`\n\n"
         "| seeded change | breaks | caught by (quick tier) | not seen by | needs |\n|---|---|---|---|---|\n") % len(rows)
 for r in rows:
@@ -68,7 +69,9 @@ re-verified on the unchanged tree over several `VERIF_SEED` values):
   with epsilon listed in the constructor's input alphabet, by name or as an object, as the repository's own tests do
   (C11-r7-epsilon-identity-test); a start mark that is set and removed again (`remove_start_state`) and bulk
   `add_transitions` joined the build variations. One round-6 change (isomorphism sort key by type name) no longer applies
-  after fix FX-37 rewrote that function, and is not kept. Looking at what these two rounds varied also exposed two more
+  after fix FX-37 rewrote that function, and is not kept; two identical changes of rounds 1 and 5 (`PDAObjectCreator`
+  filling its tables in another order) relied on `Variable('a') == Terminal('a')` and stopped being defects with fix
+  FX-40, and are not kept either. Looking at what these two rounds varied also exposed two more
   defects of the pinned library itself (FX-37: `is_equivalent_to` sorted symbols of incomparable types; FX-38:
   `substitute` with non-string variable values).
 * FX-26 (stale converter index, re-introduced by `./selftest regressions`): scenario template `reintersect` with a
